@@ -1305,13 +1305,14 @@ def build_wrapper_units(repo, report, avail):
                     missing.append(f"{ce}.{k}")
             ms = {}
             for trait, ty, fns, consts_ in f.impls:
-                if ty == wname and trait in ("RngCore", "SeedableRng", "PartialEq", "::core::cmp::PartialEq"):
+                if ty == wname and trait in ("RngCore", "SeedableRng", "PartialEq", "::core::cmp::PartialEq", "Clone", "::core::clone::Clone"):
                     ms.update({k: v for k, v in fns.items() if v.body is not None})
             u = RcUnit(wname, StructInfo(wname, f"{bname} ({core_lean})", {"0": (("named", "@blockrng"), None)}), ms,
                        f"Rngs.Ext.{wname}", [], [], fn_lead={"from_rng": (["{ρ : Type}"], []), "try_from_rng": (["{ρ : Type}"], [])})
             u.wrap = dict(block=f"RandCore{bname}", C=Cterm, core_unit=cname, n=n, w=w, seed_len=slen, core_lean=core_lean, bname=bname)
             u.newtype = wname
             u.fn_terms = {f"{bname}::from_seed": ("bytes1", f"{blk}.from_seed {Cterm} {ce}.from_seed", ("named", "Self")),
+                          f"{bname}::new": ("plain1", f"{blk}.new {Cterm}", ("named", "Self")),
                           f"{bname}::seed_from_u64": ("plain1", f"{blk}.seed_from_u64 {Cterm} {t_seed}", ("named", "Self"))}
             u.src_callees = {f"{bname}::from_rng": f"{blk}.from_rng {Cterm} {t_rng}", f"{bname}::try_from_rng": f"{blk}.try_from_rng {Cterm} {t_try}"}
             u.shape, u.seed_len, u.file = ("wrapper", w), slen, path
